@@ -101,11 +101,17 @@ CLAIMED = {
                   'and to both front ends by parsing each generated model (accepted, and with the same fault in the same label) in both renderings and comparing diagnostics, document dump, supported-analysis verdict and invariants.',
              design='4/C05',
              note='Known finding C05-actname-default (edge_t::actname "SKIP" from XML vs "" from XTA). Declarations and label expressions share one grammar in both formats (text identical in both renderings); positions are C06\'s. The 3.x syntax is not generated.'),
+ 'C01': dict(technique='Coq soundness theorem for a stack-discipline certificate over the LR(0) item automaton (any token stream, any error recovery), certificate re-checked by vm_compute on the automaton regenerated from parser.y; callback traces against the effect table; ASan/UBSan stream over all entry points and back ends',
+             text='C01_fragments_never_underflow, C01_type_fragments_never_underflow, C01_frames_never_underflow: no run of the LR machine of the regenerated automaton (shift any terminal, reduce by any listed rule whatever the lookahead, recover from any state without default reduction to the first state shifting error) '
+                  'executes a grammar action that reads more entries of the expression / type / frame stack than the parse has pushed, with counting non-terminals (ArgList, FieldInitList, ...) handled by linear forms over semantic values; '
+                  'tied by regenerating automaton, actions and certificate on every run, by comparing the three stack heights around every callback of thousands of generated and mutated inputs with the effect table, and by a sanitizer build over parse_XML_buffer / parse_XTA / every xta_part_t / parseProperty x DocumentBuilder / PrettyPrinter / TigaPropertyBuilder x both syntaxes.',
+             design='4/C01',
+             note='Level is proof for the stack discipline only (partial): null attributes and current-object pointers of the XML reader and builder, the statement-block / field / label stacks, libxml2, flex, memory safety of the C++ runtime and running time are observed by the sanitizer stream, not proved.'),
 }
 NOT_YET = 'check not built yet in this revision (work in progress, see DESIGN.md section 7 staging)'
 m = dict(version=1, setup_cmd='tools/setup.sh',
          hooks=dict(guard='UTAP_VERIF', enable='tools/buildlib.sh compiles /repo/src with -DUTAP_VERIF into /verif/_work/lib-{rel,asan}',
-                    baseline_off_cmd='/verif/tools/baseline_off.sh', source_commits=[], add_only=True),
+                    baseline_off_cmd='/verif/tools/baseline_off.sh', source_commits=['522b6863fbd66b8fc2edf30cfab0682c2a13278e'], add_only=True),
          engines=[dict(name='coq', path='coq/', serves_properties=sorted(CLAIMED), kind_free_text='Coq 8.16.1 development: models, proofs, Properties_Cxx.v'),
                   dict(name='check', path='check', serves_properties=sorted(CLAIMED), kind_free_text='Python driver: builds /repo, regenerates tables, runs coqc, extraction, correspondence, oracle search, evidence')],
          checks=[], notes='See DESIGN.md. Fixes committed in /repo are listed in known_findings.jsonl as fixed entries.',
